@@ -568,7 +568,10 @@ class Union(Structure, metaclass=UnionMetaType):
             raise NotImplementedError("Modifying a dynamic union is not yet supported")
 
         super().__setattr__(attr, value)
-        self._rebuild(attr)
+        if attr in self.__class__.lookup:
+            self._rebuild(attr)
+        # Otherwise it's a field of an anonymous structure member, which is set through the proxy of that
+        # member and has rebuilt the union already
 
     def _rebuild(self, attr: str) -> None:
         if (cur_buf := getattr(self, "_buf", None)) is None:
